@@ -506,6 +506,20 @@ func (ex *Exec) loopWrites(fr *Frame, li *loopInfo, st *State) *writeSet {
 			}
 		}
 	}
+	// ghost variables updated by at-instruction clauses (conservatively: all of them)
+	{
+		c := fr.contract
+		if c == nil {
+			c = ex.prog.contractFor(fr.fn)
+		}
+		if c != nil {
+			for _, gs := range c.AtSets {
+				for _, g := range gs {
+					ws.ghosts[g.Name] = true
+				}
+			}
+		}
+	}
 	// closures called in the loop may write captured cells
 	for b := range li.blocks {
 		for _, in := range b.Instrs {
